@@ -23,8 +23,10 @@ Record daemon := mkDaemon {
   d_norms : list (string * string);            (* normal forms (trim + NFKC) of the names and passwords used that are not normal *)
   d_creds : list (N * (string * string));      (* stored (hash, salt) id -> (name in the weak salt, normalised password) it was made from *)
   d_key : N;                                   (* which storage / session key: equal numbers = same key *)
-  d_prior : list op                            (* what happened to it before the probes: restarts with an edited configuration
+  d_prior : list op;                           (* what happened to it before the probes: restarts with an edited configuration
                                                   (each with a sender id of its own: the model's stand-in for the random draw) *)
+  d_shapes : list (N * hshape)                 (* entries whose configured password_hash is NOT the hash made from d_creds but
+                                                  nothing / a cut-short copy / an extended copy / an upper-case copy of it *)
 }.
 
 Inductive badkind :=
@@ -61,7 +63,7 @@ Record case := mkCase {
 }.
 
 (** ** The model's copy of a daemon *)
-Definition prims_of (d : daemon) : prims := toy (d_norms d) (d_creds d).
+Definition prims_of (d : daemon) : prims := toy_sh (d_norms d) (d_creds d) (d_shapes d).
 
 Definition boot (d : daemon) : option inst :=
   match start (d_cfg d) (d_key d) 0 with
@@ -160,10 +162,14 @@ Definition agrees (c : case) : bool :=
 Definition cfg_now (d : daemon) : config :=
   match boot d with Some st => i_cfg st | None => d_cfg d end.
 
-(** The password is the one the stored hash of this entry was made from. *)
+(** The hash of the submitted password EQUALS the configured text: the password is the one a hash was made from
+    and the configured text is that hash - not nothing, not a part of it, not more than it, not another spelling
+    of it (decided from how the harness wrote the entry, not by the model's comparison). *)
+Definition configured_is_the_hash (d : daemon) (ud : udetails) : bool :=
+  match nlookup (u_cred ud) (d_shapes d) with None | Some HFull => true | Some _ => false end.
 Definition pw_matches (d : daemon) (ud : udetails) (pw : string) : bool :=
   match nlookup (u_cred ud) (d_creds d) with
-  | Some (_, pw0) => String.eqb (toy_norm (d_norms d) pw) pw0
+  | Some (_, pw0) => String.eqb (toy_norm (d_norms d) pw) pw0 && configured_is_the_hash d ud
   | None => false
   end.
 
